@@ -50,6 +50,9 @@ def main():
         if a.replay:
             rc = mod.replay(res, a.replay)
             sys.exit(rc)
+        # 1+2 run under one lock: Gen/ files and the lake build are shared state
+        pipeline = C.Lock("pipeline")
+        pipeline.__enter__()
         # 1. translators: regenerate Lean from the current source
         gen_info = G.generate_all()
         res.add_cov(generated=gen_info)
@@ -77,6 +80,7 @@ def main():
             res.add_cov(leanchecker="ok" if rc == 0 else "FAILED")
             if rc != 0:
                 broken.append({"kind": "leanchecker", "out": lo[-1500:]})
+        pipeline.__exit__()
         # 3. correspondence (and, if something is broken, the failing-input search)
         mod.run(res, a.tier, broken)
         # 4. anything broken that the search did not turn into a concrete violation
